@@ -44,7 +44,7 @@ def switches(trace):
     return out
 
 
-def pairs(ctx, menu, make_shared, judge, thorough=False, seam=None, warm=True, post=None):
+def pairs(ctx, menu, make_shared, judge, thorough=False, seam=None, warm=True, post=None, warm_check=True):
     """menu: list of (name, run(shared) -> observation); make_shared() -> fresh shared objects;
     judge(name, observation, shared) -> None or (fingerprint, detail) (or a list of them).
     post(names, observations, shared) -> list of (fingerprint, detail): oracle over the pair.
@@ -59,7 +59,7 @@ def pairs(ctx, menu, make_shared, judge, thorough=False, seam=None, warm=True, p
         for i in combo:
             sh = make_shared()
             o = menu[i][1](sh)
-            bad = judge(menu[i][0], o, sh)
+            bad = judge(menu[i][0], o, sh) if warm_check else None
             if bad:
                 raise SchedulerError(f"operation {menu[i][0]!r} fails its oracle in isolation: {bad}")
     shared = make_shared()
